@@ -550,6 +550,35 @@ def batching_callers() -> list[str]:
     return out
 
 
+def store_users() -> dict:
+    """(a) every place in the identity layer (ipv8/attestation/identity/*.py, communication_manager.py) that closes a
+    database: the IdentityManager's store is shared by all loaded pseudonyms, and on a closed Database db_call turns
+    execute/commit into silent no-ops; (b) AttestationCommunity.on_attestation_complete stores the proof blob and secret
+    key (self.database.insert_attestation) before it runs the completion callback through which the identity overlay
+    advertises the attribute"""
+    closers = []
+    files = sorted((REPO / "ipv8" / "attestation" / "identity").glob("*.py")) + \
+        [REPO / "ipv8" / "attestation" / "communication_manager.py"]
+    for path in files:
+        rel = str(path.relative_to(REPO))
+        for n in ast.walk(ast.parse(path.read_text())):
+            if isinstance(n, ast.Call) and isinstance(n.func, ast.Attribute) and n.func.attr == "close" \
+                    and re.search(r"(database|_db|\bdb)$", ast.unparse(n.func.value)):
+                closers.append(f"{rel}:{n.lineno} {ast.unparse(n.func)}")
+    wpath = "ipv8/attestation/wallet/community.py"
+    wcls = _class(ast.parse((REPO / wpath).read_text()), "AttestationCommunity", wpath)
+    fn = next((n for n in wcls.body if isinstance(n, ast.FunctionDef) and n.name == "on_attestation_complete"), None)
+    if fn is None:
+        raise TranslatorError("AttestationCommunity.on_attestation_complete not found")
+    store = [n.lineno for n in ast.walk(fn) if isinstance(n, ast.Call)
+             and ast.unparse(n.func) == "self.database.insert_attestation"]
+    cb = [n.lineno for n in ast.walk(fn) if isinstance(n, ast.Call)
+          and ast.unparse(n.func) == "self.attestation_request_complete_callback"]
+    if len(store) != 1 or len(cb) != 1:
+        raise TranslatorError(f"on_attestation_complete: {len(store)} stores / {len(cb)} callback calls")
+    return {"closers": closers, "wallet_first": store[0] < cb[0]}
+
+
 def lean_prim(p) -> str:
     if p[0] == "exec":
         return f".exec {p[1]} .{p[2]}"
@@ -715,6 +744,7 @@ def translate() -> tuple[str, dict]:
     reload_lean, meta["reload"] = reload_mode()
     meta["credential_order"] = credential_order()
     meta["batching_callers"] = batching_callers()
+    meta["store_users"] = store_users()
     meta["table_names"] = list(tr.tables)
     meta["column_names"] = list(tr.columns)
 
@@ -774,6 +804,14 @@ def translate() -> tuple[str, dict]:
             *["    " + x for x in meta["batching_callers"]],
             "    (empty = none) -/",
             f"def batchingCallers : List Nat := {lean_list([x.split(':')[1].split(' ')[0] for x in meta['batching_callers']])}",
+            "",
+            "/-- line numbers of the places in the identity layer that close a database (the IdentityManager's store is shared):",
+            *["    " + x for x in meta["store_users"]["closers"]],
+            "    (empty = none) -/",
+            f"def identityStoreClosers : List Nat := {lean_list([x.split(':')[1].split(' ')[0] for x in meta['store_users']['closers']])}",
+            "",
+            "/-- AttestationCommunity.on_attestation_complete: self.database.insert_attestation precedes the completion callback -/",
+            f"def walletStoresBeforeCallback : Bool := {'true' if meta['store_users']['wallet_first'] else 'false'}",
             "",
             "/-- how PseudonymManager.__init__ puts the stored tokens back into the tree -/",
             f"def reloadMode : ReloadMode := {reload_lean}",
